@@ -33,7 +33,7 @@ WORDS = [b"ERROR disk full", b"info ok", "café au lait".encode(), "€ 12,50".e
          "日本語ログ".encode(), "emoji \U0001F600 end".encode(), b"tab\tsep", b"cr\rinside", b"a|b|c", b"ERROR", b"#", b"keep me",
          b"M line", b"u line"]
 PATTERNS = [None, None, None, (b"ERROR|caf\xc3\xa9", False), (b"^[^#]", False), (b"^$", False), (b"ERROR", True), (b"^M", False), (b"keep|info", False),
-            (b"\xe6\x97\xa5|\xf0\x9f\x98\x80", False)]
+            (b"\xe6\x97\xa5|\xf0\x9f\x98\x80", False), (b"ok ", False), (b" ERROR", False), (b"me ", True), (b" ", False)]     # (blanks at the ends count)
 
 
 def py_raw_lines(data, maxlen):
@@ -131,8 +131,8 @@ def generate(rng, tier):
         cases.append(mk(rng.choice([b"", b"old\nold part"]), rng.choice([1, 2, 100]), rng.choice(PATTERNS), ev, mode="free",
                         consume_d=rng.choice([0, 200, 5000, 30000])))
     cases.append({"perc": RING})
-    for v in range(2 if tier == "quick" else 6):
-        cases.append({"e2e": v})
+    for v in range(3 if tier == "quick" else 6):
+        cases.append({"e2e": v})       # v % 4 == 2: the file is followed through a symbolic link, for longer than the 3 s truncation check
     return cases
 
 
@@ -163,6 +163,12 @@ def _wait(pred, timeout):
 E2E_LINES = [b"first appended line", "café über \U0001F600".encode(), b"", b"keep this one", b"x" * 5000, b"the last one"]
 
 
+def e2e_lines(v):
+    if v % 4 == 2:      # the long run through a symbolic link: one line every 0.2 s for about nine seconds
+        return E2E_LINES[:-1] + [b"slow line %02d keep" % k for k in range(40)] + E2E_LINES[-1:]
+    return E2E_LINES
+
+
 def _e2e(v):
     env = srv.Env(os.path.join(vf.scratch(), "c04env%d" % v))
     s = env.start_server("t%d" % v, hostname="tailhost%d" % v)
@@ -170,8 +176,14 @@ def _e2e(v):
     pre = b"PRE-EXISTING line\nPRE partial "
     open(path, "wb").write(pre)
     outp = os.path.join(env.dir, "client%d.out" % v)
+    via_link = v % 4 == 2
+    followed = path
+    if via_link:
+        followed = os.path.join(os.path.dirname(path), "follow%d.lnk" % v)
+        if not os.path.lexists(followed):
+            os.symlink(os.path.basename(path), followed)
     cmd = [os.path.join(srv.BIN, "dtail"), "--cfg", "none", "--noColor", "--servers", "127.0.0.1:%d" % s.port, "--trustAllHosts",
-           "--key", env.key, "--user", "root", "--files", path]
+           "--key", env.key, "--user", "root", "--files", followed]
     regex = v % 2 == 1
     if regex:
         cmd += ["--regex", "keep|last"]
@@ -182,19 +194,21 @@ def _e2e(v):
         if not _wait(lambda: _server_pos(s.proc.pid, path) == len(pre), 20):
             res["error"] = "server did not open and position the file"
             return res
-        data = b"".join(l + b"\n" for l in E2E_LINES) + b"unfinished"
+        data = b"".join(l + b"\n" for l in e2e_lines(v)) + b"unfinished"
         import random
         rng = random.Random(v)
         size = len(pre)
-        for ch in cut(rng, data, 4 + v):
+        pieces = cut(rng, data, 4 + v) if not via_link else [l + b"\n" for l in e2e_lines(v)] + [b"unfinished"]
+        for n, ch in enumerate(pieces):
             with open(path, "ab") as f:
                 f.write(ch)
             size += len(ch)
-            time.sleep(rng.choice([0, 0.02, 0.15]))
+            time.sleep(0.2 if via_link else rng.choice([0, 0.02, 0.15]))     # (via the link: the reader keeps reaching end of file
+                                                                             # while the periodic truncation check comes round)
         if not _wait(lambda: _server_pos(s.proc.pid, path) == size, 20):
             res["error"] = "server did not catch up"
             return res
-        want = len([l for l in E2E_LINES if (not regex) or b"keep" in l or b"last" in l])
+        want = len([l for l in e2e_lines(v) if (not regex) or b"keep" in l or b"last" in l])
         _wait(lambda: open(outp, "rb").read().count(b"REMOTE|") >= want, 5)
         time.sleep(0.3)
     finally:
@@ -306,8 +320,8 @@ def judge(cases, obs, tier):
                 oracle[i] = "transmittedPerc reports %d for matched=%d transmitted=%d" % (bad[0][2], bad[0][0], bad[0][1])
             continue
         if "e2e" in c:
-            lines = [l for l in E2E_LINES if (not o["regex"]) or b"keep" in l or b"last" in l]
-            nums = [k + 1 for k, l in enumerate(E2E_LINES) if (not o["regex"]) or b"keep" in l or b"last" in l]
+            lines = [l for l in e2e_lines(c["e2e"]) if (not o["regex"]) or b"keep" in l or b"last" in l]
+            nums = [k + 1 for k, l in enumerate(e2e_lines(c["e2e"])) if (not o["regex"]) or b"keep" in l or b"last" in l]
             texts = [bytes.fromhex(r[4]) for r in o["recs"]]
             if o["pre_seen"]:
                 oracle[i] = "dtail printed content that was in the file before the follow began"
